@@ -128,6 +128,13 @@ type keyEntry struct {
 	Ty   int // static type id; 0 = any
 	Key  errdef.FieldKey
 	Opt  func(v any) errdef.Option
+	// extractor forms (C03)
+	Ext        func(err error) (any, bool)
+	OrZero     func(err error) any
+	OrDefault  func(err error, d any) any
+	OrFallback func(err error, d any) any
+	WithForms  func(err error, d any) [3]any // WithZero, WithDefault, WithFallback
+	Zero       any
 }
 
 func (k keyEntry) stCoq() string {
@@ -138,14 +145,25 @@ func (k keyEntry) stCoq() string {
 }
 
 func mkKey[T any](name string, ty int) keyEntry {
-	ctor, _ := errdef.DefineField[T](name)
-	return keyEntry{Name: name, Ty: ty, Key: ctor.Key(), Opt: func(v any) errdef.Option {
+	ctor, ext := errdef.DefineField[T](name)
+	conv := func(v any) T {
 		var t T
 		if v != nil {
 			t = v.(T)
 		}
-		return ctor(t)
-	}}
+		return t
+	}
+	var zero T
+	return keyEntry{Name: name, Ty: ty, Key: ctor.Key(), Zero: zero,
+		Opt:        func(v any) errdef.Option { return ctor(conv(v)) },
+		Ext:        func(err error) (any, bool) { v, ok := ext(err); return v, ok },
+		OrZero:     func(err error) any { return ext.OrZero(err) },
+		OrDefault:  func(err error, d any) any { return ext.OrDefault(err, conv(d)) },
+		OrFallback: func(err error, d any) any { return ext.OrFallback(err, func(error) T { return conv(d) }) },
+		WithForms: func(err error, d any) [3]any {
+			return [3]any{ext.WithZero()(err), ext.WithDefault(conv(d))(err), ext.WithFallback(func(error) T { return conv(d) })(err)}
+		},
+	}
 }
 
 var keyPool = func() []keyEntry {
